@@ -98,6 +98,9 @@ func oracleStagedReport(c *Ctx) error {
 	if c.Step.Op != "goit" || !c.Post.HasGoit {
 		return nil
 	}
+	if c.Res.Panic || c.Res.Timeout {
+		return fmt.Errorf("%s crashed or hung: %s", c.Step, c.Res)
+	}
 	switch c.Step.Args[0] {
 	case "add", "rm", "restore", "reset", "commit", "switch", "update-ref":
 	default:
@@ -150,34 +153,43 @@ var profDiff = register(&Profile{
 })
 
 var diffWeights = Weights{"write-new": 20, "modify": 14, "remove-file": 8, "rmdir": 3, "recreate": 3, "add": 28, "rm": 8, "commit": 18,
-	"restore-staged": 6, "reset": 5, "switch-c": 2, "switch": 2}
+	"restore-staged": 6, "reset": 5, "switch-c": 2, "switch": 2, "copydir": 4, "revert": 5, "recreate-unstaged": 3}
 
 // ---------------------------------------------------------------- C13
 
 // ignoredBy mirrors the documented meaning of .goitignore entries in the
 // generated domain: "name/" excludes everything beneath that directory
 // (anywhere in the tree), "*.ext" excludes files with that extension.
-func ignoredBy(lines []string, p string) bool {
+func ignoredBy(lines []string, p string) bool { return ignoreClass(lines, p) == "ignored" }
+
+// ignoreClass: "ignored" when an entry excludes p by its documented meaning; "unspecified" when an
+// extension of a *.ext entry occurs in p elsewhere than at the end of the file name (Goit's patterns
+// are not anchored at their end, the statement does not say what happens then); "no" otherwise.
+func ignoreClass(lines []string, p string) string {
+	class := "no"
+	parts := strings.Split(p, "/")
 	for _, ln := range lines {
 		if ln == "" {
 			continue
 		}
 		if strings.HasSuffix(ln, "/") {
-			// some directory component of p equals the name
 			d := strings.TrimSuffix(ln, "/")
-			parts := strings.Split(p, "/")
 			for _, c := range parts[:len(parts)-1] {
 				if c == d {
-					return true
+					return "ignored"
 				}
 			}
 		} else if strings.HasPrefix(ln, "*.") {
-			if strings.HasSuffix(p, ln[1:]) {
-				return true
+			ext := ln[1:]
+			if strings.HasSuffix(parts[len(parts)-1], ext) {
+				return "ignored"
+			}
+			if strings.Contains(p, ext) {
+				class = "unspecified"
 			}
 		}
 	}
-	return false
+	return class
 }
 
 func ignoreLines(o *Obs) []string {
@@ -200,9 +212,15 @@ func checkWorktreeReport(c *Ctx, o *Obs, when string) (string, error) {
 			expUn[p] = "modified"
 		}
 	}
+	unspecified := map[string]bool{}
 	for p := range o.Work.Files {
-		if _, tracked := o.IdxMap[p]; !tracked && !ignoredBy(ign, p) {
-			expUntracked[p] = true
+		if _, tracked := o.IdxMap[p]; !tracked {
+			switch ignoreClass(ign, p) {
+			case "no":
+				expUntracked[p] = true
+			case "unspecified":
+				unspecified[p] = true
+			}
 		}
 	}
 	r := c.Goit("status")
@@ -221,7 +239,9 @@ func checkWorktreeReport(c *Ctx, o *Obs, when string) (string, error) {
 	}
 	gotU := map[string]string{}
 	for p := range rep.Untracked {
-		gotU[p] = "untracked"
+		if !unspecified[p] {
+			gotU[p] = "untracked"
+		}
 	}
 	wantU := map[string]string{}
 	for p := range expUntracked {
@@ -255,6 +275,10 @@ func checkWorktreeReport(c *Ctx, o *Obs, when string) (string, error) {
 }
 
 func oracleWorktreeReport(c *Ctx) error {
+	if c.Step.Op == "goit" && (c.Res.Panic || c.Res.Timeout) {
+		// a crashed command reports nothing (and the history this profile needs may never come about)
+		return fmt.Errorf("%s crashed or hung: %s", c.Step, c.Res)
+	}
 	if !c.Post.HasGoit || c.Post.HeadCommit() == "" || c.Post.Index == nil {
 		return nil // after at least one commit
 	}
@@ -287,6 +311,6 @@ var profWorktree = register(&Profile{
 })
 
 var worktreeWeights = Weights{"write-new": 18, "modify": 14, "rewrite-same": 8, "touch": 8, "remove-file": 10, "rmdir": 5, "recreate": 4,
-	"add": 16, "rm": 4, "commit": 6, "restore": 3, "reset": 3}
+	"add": 16, "rm": 4, "commit": 6, "restore": 3, "reset": 3, "revert": 6, "recreate-unstaged": 5}
 
 var _ = sbx.Diff
